@@ -30,6 +30,8 @@ def steps_strategy(extended, restart):
             (1, st.tuples(st.just("dropdead"))),
             (1, st.tuples(st.just("advance"), st.just(4000))),
         ]
+    if restart or extended:
+        base.append((2, st.tuples(st.just("setinfok"), st.integers(0, 5), st.sampled_from([{"progress": 10}, {"status": "x"}, {"progress": 50, "article": "A"}]))))
     if restart:
         base.append((3, st.tuples(st.just("restart"))))
     pool = []
@@ -92,9 +94,40 @@ def steps_strategy(extended, restart):
             out.append([["disconnect", wk, [0]], ["finish", wk, 0, "ok"], ["run"], ["pull", draw(w), []]][tail - 1])
         return out
 
+    @st.composite
+    def drained(draw):
+        # every job finished and dropped after its ttl: the server holds no job at all (then restart, then new work)
+        wk = draw(w)
+        a = list(draw(add))
+        a[3] = None  # an id chosen by the server
+        out = [a]
+        if draw(st.booleans()):
+            out += [["pull", wk, []], ["run"], ["finish", wk, 0, draw(st.sampled_from(["ok", "err"]))]]
+        else:
+            out += [["kill", 0], ["kill", 1], ["kill", 2]]
+        out += [["advance", 4000], ["dropdead"], ["advance", 4000], ["dropdead"]]
+        if restart:
+            out.append(["restart"])
+        b = list(draw(add))
+        b[3] = None
+        return out + [b, ["pull", draw(w), []], ["run"]]
+
+    @st.composite
+    def wait_then_kill_readd(draw):
+        # a client blocked on two jobs; one of them is killed and added again under the same id before the other finishes
+        wk, c = draw(w), draw(st.integers(1, 2))
+        a1, a2 = list(draw(add)), list(draw(add))
+        a1[3], a2[3] = 3, 4
+        out = [a1, a2, ["waitslots", c, draw(st.sampled_from([[3, 4], [4, 3], [3]]))], ["run"], ["killid", 3], list(a1)]
+        if draw(st.booleans()):
+            out.append(["run"])
+        out += [["pull", wk, [a2[1]]], ["run"], ["finish", wk, 0, draw(st.sampled_from(["ok", "err"]))], ["run"]]
+        return out
+
     burst = st.lists(add, min_size=2, max_size=3).map(lambda ts: [list(t) for t in ts])
     return st.one_of(single, single, single, blocked_then_pushes(), held_job(), burst, held_and_done() if restart else held_job(),
-                     killed_and_readded())
+                     killed_and_readded(), drained() if (restart or extended) else held_job(),
+                     wait_then_kill_readd() if extended else held_job())
 
 
 def flatten(chunks, limit):
@@ -122,7 +155,7 @@ def small_ops(restart=False, extended=False):
     if extended:
         ops += [["wait", 1, [0]], ["add", "a", 0, 1, None, [0]], ["finish", 1, 0, "late"]]
     if restart:
-        ops += [["restart"]]
+        ops += [["restart"], ["setinfok", 0, {"progress": 7}]]
     return ops
 
 
